@@ -932,6 +932,27 @@ fn gen_from(prop: &str, posfile: &Path, out: &Path, cap: usize) {
                     evs.push(chain::exec(&mut c, &json!({"op": "set_auto", "filter": f})));
                     evs.push(chain::exec(&mut c, &json!({"op": "clear_outcome"})));
                 }
+                if prop == "C14" {
+                    // every special move and capture (at most 16) pushed, the outcome calculated, popped again and
+                    // the outcome calculated once more: pops must lower the counts exactly as pushes raised them,
+                    // also when the undone move changed rights, marks or promoted
+                    let mut sv = Vec::new();
+                    owlchess::movegen::semilegal::gen_all_into(&b, &mut sv);
+                    let special: Vec<owlchess::Move> = sv.iter().copied()
+                        .filter(|m| m.kind() != owlchess::moves::MoveKind::Simple || b.get(m.dst()).is_occupied()
+                                    || matches!(m.src_cell().piece(), Some(owlchess::Piece::King) | Some(owlchess::Piece::Rook)))
+                        .take(16).collect();
+                    for m in special {
+                        let e = chain::exec(&mut c, &json!({"op": "push", "like": {"t": "move", "m": proj::mv_json(m)}}));
+                        let ok = e["res"] == "ok";
+                        evs.push(e);
+                        evs.push(chain::exec(&mut c, &json!({"op": "calc"})));
+                        if ok {
+                            evs.push(chain::exec(&mut c, &json!({"op": "pop"})));
+                            evs.push(chain::exec(&mut c, &json!({"op": "calc"})));
+                        }
+                    }
+                }
                 if let Some(m) = posgen::pick_move(&mut rng, &b) {
                     evs.push(chain::exec(&mut c, &json!({"op": "push", "like": {"t": "move", "m": proj::mv_json(m)}})));
                     evs.push(chain::exec(&mut c, &json!({"op": "calc"})));
